@@ -11,7 +11,7 @@ fn lk(s: &str) -> &'static str { Box::leak(s.to_string().into_boxed_str()) }
 fn lkv<T>(t: T) -> &'static T { Box::leak(Box::new(t)) }
 fn wit(s: String) { println!("WITNESS {}", s.replace('\n', " ")); }
 fn msgs() -> Vec<String> {
-    let mut v: Vec<String> = vec!["".into(), "a".into(), "{}".into(), "{\"a\":1}".into(), "Zo\u{eb} \u{2713} \u{1F511}".into(), "a.b\0c".into(), "\u{feff}".into(), "\u{feff}{\"a\":1}".into(), " a ".into(), "\n".into()];
+    let mut v: Vec<String> = vec!["".into(), "a".into(), "{}".into(), "{\"a\":1}".into(), "Zo\u{eb} \u{2713} \u{1F511}".into(), "a.b\0c".into(), "\u{feff}".into(), "\u{feff}{\"a\":1}".into(), " a ".into(), "\n".into(), "a=".into(), "k=v==".into(), "=".into(), "==".into(), ".".into(), "a.b.c.d".into()];
     for n in [15usize, 16, 17, 24, 40, 63, 64, 65, 127, 128, 129, 200, 255, 256, 300, 1000] { v.push("x".repeat(n)); }
     v
 }
@@ -86,7 +86,7 @@ fn c01() {
     { let key = lkv(PasetoSymmetricKey::<V4, Local>::from(key32(3))); let big = "z".repeat(66_000);
       let mut pb = PasetoBuilder::<V4, Local>::default(); pb.set_claim(CustomClaim::try_from(("blob", big.as_str())).unwrap());
       match pb.build(&key) { Ok(t) => { let r = PasetoParser::<V4, Local>::default().parse(lk(&t), key); if r.as_ref().map(|j| j["blob"] != big.as_str()).unwrap_or(true) { return wit(format!("C01 PasetoBuilder/PasetoParser<V4,Local> with a 66000-byte claim does not round-trip: {:?}", r.map(|_| "Ok(other)").map_err(|e| e.to_string()))); } } Err(e) => return wit(format!("C01 PasetoBuilder<V4,Local>::build with a 66000-byte claim failed: {e}")) } }
-    layers_roundtrip(); layer_setter_orders("C01");
+    layers_roundtrip(); layer_setter_orders("C01"); claims_between_builds("C01");
 }
 #[cfg(feature = "main_set")]
 fn layers_roundtrip() {
@@ -184,6 +184,11 @@ fn c03() {
             }
         }
     }}}
+    for v in 1..=4u8 { for l in (0..=300usize).step_by(1) { let f = "f".repeat(l); let fo = if l == 0 { None } else { Some(f.clone()) };
+        if let Ok(t) = local::enc(v, 1, 2, "m", &fo, &None, false) { let parts: Vec<&str> = t.split('.').collect(); if let Some(mut d) = R::unb64(parts[2]) { let n = d.len(); let pos = if v == 2 { 24 } else { 32 }; if n > pos { d[pos] ^= 1;
+            let mut t2 = format!("{}.{}.{}", parts[0], parts[1], R::b64(&d)); if parts.len() == 4 { t2.push('.'); t2.push_str(parts[3]); }
+            if let Ok(p) = local::dec(v, 1, &t2, &fo, &None) { return wit(format!("C03 v{v}.local with a {l}-byte footer accepts a token whose first ciphertext byte was changed -> {p:?}")); } } } } } }
+    footer_rebinding("C03");
     // the parser layers must not normalise the token text either
     { let key = lkv(PasetoSymmetricKey::<V4, Local>::from(key32(1))); let mut pb = PasetoBuilder::<V4, Local>::default();
       if let Ok(t) = pb.build(&key) { for (what, t2) in [("leading space", format!(" {t}")), ("trailing newline", format!("{t}\n")), ("trailing space", format!("{t} ")), ("leading tab", format!("\t{t}")), ("CRLF around", format!("\r\n{t}\r\n")), ("trailing NUL", format!("{t}\0"))] {
@@ -258,6 +263,22 @@ fn c04() {
             if local::dec(v, other, tok, &None, &None).is_ok() { return wit(format!("C04 v{v}.local token built under key [7,{own},..] decrypts under key [7,{other},..] once both keys have been used in the process")); } } }
 }
 #[cfg(feature = "main_set")]
+fn footer_rebinding(pid: &str) {
+    // the footer is bound by the authentication tag, not only compared as text: a rewritten or stripped segment fails even when the caller expects exactly what the token now shows
+    for v in 1..=4u8 { for (fb, fnew) in [("ft", Some("other")), ("ft", None), ("", Some("added")), ("a-longer-footer-value", Some("a-longer-footer-valuf"))] {
+        let fbo = if fb.is_empty() { None } else { Some(fb.to_string()) };
+        if let Ok(t) = local::enc(v, 1, 2, "{\"a\":1}", &fbo, &None, false) { let seg: Vec<&str> = t.split('.').collect(); let base = seg[..3].join(".");
+            let t2 = match fnew { Some(n) => format!("{base}.{}", R::b64(n.as_bytes())), None => base.clone() };
+            if local::dec(v, 1, &t2, &fnew.map(|x| x.to_string()), &None).is_ok() { return wit(format!("{pid} v{v}.local token built with footer {fb:?}: footer segment rewritten to {fnew:?} and presented with expected footer {fnew:?} is accepted (the footer is not covered by the authentication tag)")); } } } }
+    { let (kp, pk) = R::ed_keypair(9); let k64 = lkv(Key::<64>::from(kp)); let k32 = lkv(Key::<32>::from(pk));
+      for (fb, fnew) in [("ft", Some("other")), ("ft", None), ("", Some("added"))] { let mut b = Paseto::<V4, Public>::builder(); b.set_payload(Payload::from("{}")); if !fb.is_empty() { b.set_footer(Footer::from(fb)); }
+        if let Ok(t) = b.try_sign(&PasetoAsymmetricPrivateKey::<V4, Public>::from(k64)) { let seg: Vec<&str> = t.split('.').collect(); let base = seg[..3].join("."); let t2 = match fnew { Some(n) => format!("{base}.{}", R::b64(n.as_bytes())), None => base.clone() };
+            if Paseto::<V4, Public>::try_verify(&t2, &PasetoAsymmetricPublicKey::<V4, Public>::from(k32), fnew.map(Footer::from), None).is_ok() { return wit(format!("{pid} v4.public token built with footer {fb:?}: segment rewritten to {fnew:?} and presented with expected footer {fnew:?} is accepted")); } }
+        let mut b = Paseto::<V2, Public>::builder(); b.set_payload(Payload::from("{}")); if !fb.is_empty() { b.set_footer(Footer::from(fb)); }
+        if let Ok(t) = b.try_sign(&PasetoAsymmetricPrivateKey::<V2, Public>::from(k64)) { let seg: Vec<&str> = t.split('.').collect(); let base = seg[..3].join("."); let t2 = match fnew { Some(n) => format!("{base}.{}", R::b64(n.as_bytes())), None => base.clone() };
+            if Paseto::<V2, Public>::try_verify(&t2, &PasetoAsymmetricPublicKey::<V2, Public>::from(k32), fnew.map(Footer::from)).is_ok() { return wit(format!("{pid} v2.public token built with footer {fb:?}: segment rewritten to {fnew:?} and presented with expected footer {fnew:?} is accepted")); } } } }
+}
+#[cfg(feature = "main_set")]
 fn layer_setter_orders(pid: &str) {
     // footer / assertion given to builders and parsers in every order, replaced, and cleared again
     let key = lkv(PasetoSymmetricKey::<V4, Local>::from(key32(1)));
@@ -301,6 +322,7 @@ fn c05() {
         let want = if fstr(&f).is_empty() { 3 } else { 4 };
         if seg.len() != want || (want == 4 && seg[3] != R::b64(fstr(&f).as_bytes())) { return wit(format!("C05 v{v}.local footer segment of the token for footer {:?} is not base64url(footer): {t}", f)); }
     }}}
+    footer_rebinding("C05");
     // a footer must not be exchangeable for an implicit assertion of the same bytes (and vice versa)
     for v in 3..=4u8 { for x in ["X", "kid-7", "{\"a\":1}"] {
         if let Ok(t) = local::enc(v, 1, 2, "{\"a\":1}", &None, &Some(x.to_string()), false) { let t2 = format!("{t}.{}", R::b64(x.as_bytes()));
@@ -334,6 +356,10 @@ fn c06() {
     // (footer, assertion) boundary shift
     for v in 3..=4u8 { let t = local::enc(v, 1, 2, "{}", &Some("ab".into()), &Some("cd".into()), false).unwrap_or_default();
         if local::dec(v, 1, &t, &Some("abc".into()), &Some("d".into())).is_ok() { return wit(format!("C06 v{v}.local boundary shift between footer and assertion accepted")); } }
+    for v in 3..=4u8 { for l in 0..=300usize { let a = "a".repeat(l); let mut b = "a".repeat(l); if l > 0 { b.pop(); b.push('b'); }
+        if let Ok(t) = local::enc(v, 1, 2, "{\"a\":1}", &None, &Some(a.clone()), false) {
+            if l > 0 && local::dec(v, 1, &t, &None, &Some(b)).is_ok() { return wit(format!("C06 v{v}.local token built with a {l}-byte assertion is accepted with another assertion of the same length (last byte differs)")); }
+            if local::dec(v, 1, &t, &None, &Some(format!("{a}x"))).is_ok() || (l > 0 && local::dec(v, 1, &t, &None, &Some(a[..l - 1].to_string())).is_ok()) { return wit(format!("C06 v{v}.local token built with a {l}-byte assertion is accepted with an assertion one byte longer / shorter")); } } } }
     layers_roundtrip(); layer_setter_orders("C06");
     // second build from the same core builder keeps the assertion
     for v in 3..=4u8 { if let Ok(t) = local::enc(v, 1, 2, "{}", &None, &Some("ia".into()), true) { if local::dec(v, 1, &t, &None, &Some("ia".into())).is_err() { return wit(format!("C06 v{v}.local: second try_encrypt from one builder lost the implicit assertion (token {t})")); } } }
@@ -494,7 +520,7 @@ fn c11_c12(which: &str) {
     let fut = [time::Duration::seconds(900), time::Duration::hours(1), time::Duration::hours(7), time::Duration::days(400), time::Duration::days(365 * 1000), time::Duration::days(365 * 237), time::Duration::days(365 * 280), time::Duration::days(365 * 480), time::Duration::days(365 * 6900)];
     let mut cases: Vec<(String, bool)> = vec![]; // (json value text, must_accept) for exp; reversed for nbf
     for o in offs { for fr in [false, true] { for d in past { cases.push((format!("\"{}\"", fmt(now - d, o, fr)), false)); } for d in fut { cases.push((format!("\"{}\"", fmt(now + d, o, fr)), true)); } } }
-    let bad = ["12345", "true", "false", "[1]", "{\"a\":1}", "\"\"", "\" \"", "\"garbage\"", "\"2019-01-01\"", "0", "1.5", "[]", "{}", "4102444800", "99999999999", "1e12", "-1", "\"4102444800\""];
+    let bad = ["12345", "true", "false", "[1]", "{\"a\":1}", "\"\"", "\" \"", "\"garbage\"", "\"2019-01-01\"", "0", "1.5", "[]", "{}", "4102444800", "99999999999", "1e12", "-1", "\"4102444800\"", "\"2019-01-01T00:00Z\"", "\"20190101T000000Z\"", "\"2019-01-01\"", "\"2019-01-01T00:00:00\"", "\"2999-01-01T00:00Z\"", "\"29990101T000000Z\"", "\"2999-001T00:00:00Z\""];
     for (claim, flip) in [("exp", false), ("nbf", true)] {
         if (which == "C11") == flip { continue; }
         for (val, acc) in &cases { let must_accept = *acc != flip;
@@ -573,6 +599,17 @@ fn c13() {
     }
 }
 #[cfg(feature = "main_set")]
+fn claims_between_builds(pid: &str) {
+    use serde_json::json; let key = lkv(PasetoSymmetricKey::<V4, Local>::from(key32(1)));
+    // claims changed between two builds of one builder (set / remove / extend) are all reflected in the second token
+    { use std::collections::HashMap; let mut b = GenericBuilder::<V4, Local>::default(); b.set_claim(CustomClaim::try_from(("a", 1)).unwrap()); b.set_claim(CustomClaim::try_from(("gone", 1)).unwrap());
+      let _ = b.try_encrypt(&key);
+      let mut more: HashMap<String, Box<dyn erased_serde::Serialize>> = HashMap::new(); more.insert("ext".to_string(), Box::new(7)); b.extend_claims(more); b.remove_claim("gone");
+      if let Ok(t) = b.try_encrypt(&key) { match GenericParser::<V4, Local>::default().parse(lk(&t), key) { Ok(j) => { if j != json!({"a": 1, "ext": 7}) { return wit(format!("{pid} build, then extend_claims({{ext:7}}) and remove_claim(gone), then build again: the second token holds {j} instead of {{a:1, ext:7}}")); } } Err(e) => return wit(format!("{pid} second build does not parse: {e}")) } }
+      b.set_claim(CustomClaim::try_from(("late", true)).unwrap());
+      if let Ok(t) = b.try_encrypt(&key) { match GenericParser::<V4, Local>::default().parse(lk(&t), key) { Ok(j) => { if j != json!({"a": 1, "ext": 7, "late": true}) { return wit(format!("{pid} third build after set_claim(late): the token holds {j}")); } } Err(e) => return wit(format!("{pid} third build does not parse: {e}")) } } }
+}
+#[cfg(feature = "main_set")]
 fn c14() {
     use serde_json::json;
     let key = lkv(PasetoSymmetricKey::<V4, Local>::from(key32(1)));
@@ -593,6 +630,7 @@ fn c14() {
     }}}
     { let mut b = GenericBuilder::<V4, Local>::default(); for k in ["Data", "data", "DATA", "Sub"] { b.set_claim(CustomClaim::try_from((k, 1)).unwrap()); } b.set_claim(SubjectClaim::from("s")); b.remove_claim("data");
       if let Ok(t) = b.try_encrypt(&key) { match GenericParser::<V4, Local>::default().parse(lk(&t), key) { Ok(j) => { if j != json!({"Data": 1, "DATA": 1, "Sub": 1, "sub": "s"}) { return wit(format!("C14 claims Data, data, DATA, Sub, sub were set and only `data` removed, but the parsed token holds {j}")); } } Err(e) => return wit(format!("C14 parse failed after remove_claim: {e}")) } } }
+    claims_between_builds("C14");
     // two keys that differ only by an invisible code point stay two members
     { let mut b = GenericBuilder::<V4, Local>::default(); b.set_claim(CustomClaim::try_from(("dup", 1)).unwrap()); b.set_claim(CustomClaim::try_from(("dup\u{feff}", 2)).unwrap());
       if let Ok(t) = b.try_encrypt(&key) { match GenericParser::<V4, Local>::default().parse(lk(&t), key) { Ok(j) => { if j != json!({"dup": 1, "dup\u{feff}": 2}) { return wit(format!("C14 claims dup=1 and dup<U+FEFF>=2 were set but the parsed token holds {j}")); } } Err(e) => return wit(format!("C14 parse failed for keys differing by U+FEFF: {e}")) } } }
@@ -714,6 +752,12 @@ fn c16() {
         if CALLS.load(Ordering::SeqCst) != 2 { return wit(format!("C16 one GenericParser<V4,Public> parsing the same token twice ran the validator {} time(s)", CALLS.load(Ordering::SeqCst))); } }
       let mut p = PasetoParser::<V4, Local>::default(); p.validate_claim(SubjectClaim::from("alice"), &accept); let t6 = v4tok("{\"sub\":\"alice\"}").0; CALLS.store(0, Ordering::SeqCst); let _ = p.parse(lk(&t6), key); let _ = p.parse(lk(&t6), key);
       if CALLS.load(Ordering::SeqCst) != 2 { return wit(format!("C16 one PasetoParser<V4,Local> parsing the same token twice ran the validator {} time(s)", CALLS.load(Ordering::SeqCst))); } }
+    { use std::collections::HashMap; let t7 = v4tok("{\"sub\":\"alice\"}").0;
+      let mut p = GenericParser::<V4, Local>::default(); p.validate_claim(SubjectClaim::from("alice"), &accept);
+      let mut vm: ValidatorMap = HashMap::new(); vm.insert("sub".to_string(), Box::new(reject)); p.extend_validation_claims(vm);
+      if p.parse(lk(&t7), key).is_ok() { return wit("C16 validate_claim(sub, accept) followed by extend_validation_claims({sub: reject}): the later (rejecting) validator is not honoured".into()); }
+      let mut p = GenericParser::<V4, Local>::default(); let mut vm: ValidatorMap = HashMap::new(); vm.insert("sub".to_string(), Box::new(accept)); p.extend_validation_claims(vm); p.validate_claim(SubjectClaim::from("alice"), &reject);
+      if p.parse(lk(&t7), key).is_ok() { return wit("C16 extend_validation_claims({sub: accept}) followed by validate_claim(sub, reject): the later (rejecting) validator is not honoured".into()); } }
     // never invoked on unauthenticated tokens
     { let mut p = GenericParser::<V4, Local>::default(); p.validate_claim(SubjectClaim::from("x"), &accept); CALLS.store(0, Ordering::SeqCst);
       let mut bad = t.clone(); bad.pop(); bad.push('A'); let _ = p.parse(lk(&bad), key); let wrong = lkv(PasetoSymmetricKey::<V4, Local>::from(key32(9))); let _ = p.parse(lk(&t), wrong);
